@@ -432,3 +432,9 @@ func (r *RingBuffer[T]) VerifLayout() (head, tail int, slots []T) {
 // VerifPoolGet / VerifPoolPut give the harness the library's buffer pool.
 func VerifPoolGet() []byte        { return defaultBufferPool.Get() }
 func VerifPoolPut(b []byte) error { return defaultBufferPool.Put(b) }
+
+// VerifClone copies the ring (slot array included) so that an exhaustive
+// search can branch from a layout.
+func (r *RingBuffer[T]) VerifClone() *RingBuffer[T] {
+	return &RingBuffer[T]{head: r.head, tail: r.tail, elements: append([]T(nil), r.elements...)}
+}
